@@ -10,7 +10,7 @@ here = os.path.dirname(os.path.abspath(__file__))
 out = ["(* Skeletons of the transcribed Go functions at transcription time (see mk_expected.py). *)",
        "From FwdLib Require Import Bytes.", "Open Scope N_scope."]
 for l in open(os.path.join(here, "Tables.v")):
-    m = re.match(r"Definition (skel_\w+) : list str := (.*)$", l)
+    m = re.match(r"Definition (skel_\w+|index_sites|type_assert_sites) : list str := (.*)$", l)
     if m:
         out.append("Definition exp_%s : list str := %s" % (m.group(1), m.group(2)))
 open(os.path.join(here, "Expected.v"), "w").write("\n".join(out) + "\n")
